@@ -10,7 +10,7 @@ import z3
 
 from pyvc.verify import Unit, Outcome
 from pyvc.interp import PyRaise
-from pyvc.values import SInt, SStr, SElem, SBool, Obj, PList, PDict, PSet, zi, zs, mk_bool
+from pyvc.values import SInt, SFloat, SStr, SElem, SBool, Obj, PList, PDict, PSet, zi, zs, zr, mk_bool, is_intlike, is_floatlike, is_strlike
 from pyvc.runner import BoundedResult
 from .common import Vals, Stubs, real_env, cls_name
 from .c07 import ELT, install_elem_order
@@ -256,6 +256,59 @@ def units(w):
         it.check("frame:no-other-object-written", not it.writes)
     if "FuncRandom" in funcs:
         U.append(Unit("functions.py::FuncRandom.execute", s_random, p_random, allowed=("CklRuntimeError",), replay=replay_seeds))
+
+    # ------------------------------------------------------------------ the same call in two processes: same outcome, same generator state
+    # (what differs between processes is modelled by the engine: str hashes are a function of it.ghost["process"]; host set
+    #  iteration order is the permutation model above)
+    from .c13 import make_value
+    from .common import StubFuncs
+    PK = ["absent", "null", "true", "int", "decimal", "string", "list1", "set1", "map1", "object1", "func"]
+
+    def proc_unit(cname, argnames):
+        def body(it, c):
+            F = StubFuncs(w)
+            chosen = [PK[it.path.choose(len(PK))] for _ in argnames]
+            argvals = {n_: make_value(V, F, it, k_, n_) for n_, k_ in zip(argnames, chosen) if k_ != "absent"}
+            env = real_env(w, it, {})
+            outs = []
+            seed0 = SInt(z3.Int("seed0"))      # "the same random seed": the state after set_seed(n) is an int (FuncSetSeed unit: getInt)
+            for run in (0, 1):
+                it.ghost["process"] = z3.IntVal(run)
+                it.global_overlay[("ckl.functions", "seed")] = seed0
+                f = Obj(funcs[cname], {"name": cname, "secure": True})
+                try:
+                    r = it.call(w.func(f"functions.py::{cname}.execute"), [f, V.args(it, dict(argvals), list(argnames)), env, V.pos(it)])
+                    outs.append(("return", r))
+                except PyRaise as e:
+                    if e.exc.cls.name != "CklRuntimeError":
+                        it.path.fail(f"{it.target}#escape:{e.exc.cls.name}", detail="host exception")
+                    outs.append(("raise", e.exc.fields.get("value")))
+                outs[-1] = outs[-1] + (it.global_overlay.get(("ckl.functions", "seed")),)
+            c["outs"] = outs
+            return Outcome("return", None)
+
+        def same(it, a, b):
+            if isinstance(a, Obj) and isinstance(b, Obj) and a.cls is b.cls and "value" in a.fields and "value" in b.fields:
+                return same(it, a.fields["value"], b.fields["value"])
+            if is_intlike(a) and is_intlike(b):
+                return zi(a) == zi(b)
+            if is_floatlike(a) and is_floatlike(b):
+                return zr(a) == zr(b)
+            if is_strlike(a) and is_strlike(b):
+                return zs(a) == zs(b)
+            return z3.BoolVal(a is b or canon(it, a, V) == canon(it, b, V))
+
+        def post(it, c, o):
+            a, b = c["outs"]
+            it.check("post:same-kind-of-outcome-in-both-processes", a[0] == b[0])
+            if a[0] == b[0]:
+                it.check("post:same-value-or-error-value-in-both-processes", same(it, a[1], b[1]))
+            it.check("post:same-generator-state-afterwards-in-both-processes", same(it, a[2], b[2]))
+        return Unit(f"functions.py::{cname}.execute", lambda it: ([], {}, {}), post, name=f"functions.py::{cname}.execute[two processes, all kinds]",
+                    body=body, replay=replay_seeds)
+    for cname, argnames in (("FuncSetSeed", ["n"]), ("FuncRandom", ["a", "b"])):
+        if cname in funcs:
+            U.append(proc_unit(cname, argnames))
     return U
 
 
@@ -280,6 +333,7 @@ append(out, 'fig' in s); append(out, sum(list(<<5, 1, 3>>)));
 require Set; append(out, Set->union(s, <<'kiwi', 'new'>>)); append(out, Set->intersection(s, <<'kiwi', 'fig'>>)); append(out, Set->diff(s, <<'kiwi'>>));
 require List; append(out, List->unique(list(s) + list(s)));
 set_seed(42); append(out, [random(100), random(100), random(100)]);
+for sd in ['alpha', 'beta', 7.5, NULL, [1], <<'s'>>, 77] do append(out, do set_seed(sd); [random(1000), random(1000)] catch all 'no such seed' end) end;
 append(out, string(mixed)); append(out, [x for x in mixed]);
 def o = <*b = 1, a = 2*>; append(out, string(o)); append(out, [k for k in keys <<<'k2' => 1, 'k1' => 2>>>]);
 def l3 = []; for [a, b, c] in [<<'pear', 'apple', 'fig'>>, <<'x', 2, 1.5>>] do append(l3, [a, b, c]) end; append(out, l3);
